@@ -9,7 +9,7 @@ UNITS = {
     "calendars": {"rlimit": 30},
     "linalg": {"rlimit": 50},
     "linalg_f64": {"rlimit": 50},
-    "fx": {"rlimit": 50},
+    "fx": {"rlimit": 200},
     "ppspline": {"rlimit": 50},
 }
 
@@ -193,13 +193,14 @@ CHECKS = {
             "trusted": "replay/src/probe_fx.rs: the oracle (path product on the quote tree found by breadth-first search) is written from the property text; rustc codegen",
         },
         "level": "other",
-        "explanation": "mixed: the rejection clauses and the two seeding functions are proved (Verus); the graph fill-in itself is only explored by a bounded probe on the real code (labelled bounded, not proved)",
+        "explanation": "mixed: the rejection clauses, the two seeding functions and the SOUNDNESS of the fill-in recursion (every value written is consistent with every potential vector of the quotes; nothing populated is overwritten) are proved (Verus); completeness of the fill-in for every tree, termination, and independence of quote order / base are only explored by a bounded probe on the real code (labelled bounded, not proved)",
         "assumptions": CHRONO_ASSUMPTIONS + [
             "create_initial_fx_array is verified over the abstract ring of shim/ring.rs (f64 / Dual / Dual2 instances assumed to satisfy its axioms)",
             "IndexSet<Ccy> get_index_of / insert / len, Array2::eye, slice iteration: shim contracts",
         ],
         "uncovered": [
-            "mut_arrays_remaining_elements / create_fx_array: completeness of the fill-in for every tree, the path-product identity and rejection of cyclic quote sets of the right count are NOT proved (bounded probe only)",
+            "mut_arrays_remaining_elements: termination and completeness (every tree is filled; cyclic quote sets of the right count are rejected) are NOT proved (bounded probe only); its three selection expressions (iterator chains choosing the node and the open pairs) are ASSUMED contracts",
+            "create_fx_array (lifting the quotes to the requested order, variable names fx_<pair>) is not under contract; existence of a potential vector for a tree of quotes is textbook and not machine-checked",
             "independence of quote order and base currency: bounded probe only",
         ],
     },
